@@ -58,7 +58,13 @@ class XmlEventHandler(XmlHandler):
         """
         element_ns_map: dict = {}
         ns_maps: list[dict] = [{}]
+        ended: Any = None
         for event, element in context:
+            if ended is not None:
+                # The tail is only complete when the next tag has been read
+                self.end_element(ended)
+                ended = None
+
             if event == EventType.START:
                 ns_maps.append(
                     self.merge_parent_namespaces(ns_maps[-1], element_ns_map)
@@ -73,15 +79,8 @@ class XmlEventHandler(XmlHandler):
                 )
                 element_ns_map = {}
             elif event == EventType.END:
-                self.parser.end(
-                    self.queue,
-                    self.objects,
-                    element.tag,
-                    element.text,
-                    element.tail,
-                )
                 ns_maps.pop()
-                element.clear()
+                ended = element
             elif event == EventType.START_NS:
                 prefix, uri = element
                 prefix = prefix or None
@@ -91,7 +90,25 @@ class XmlEventHandler(XmlHandler):
             else:
                 raise XmlHandlerError(f"Unhandled event: `{event}`.")
 
+        if ended is not None:
+            self.end_element(ended)
+
         return self.objects[-1][1] if self.objects else None
+
+    def end_element(self, element: Any) -> None:
+        """Push the end event of the element to the main parser.
+
+        Args:
+            element: The etree element instance
+        """
+        self.parser.end(
+            self.queue,
+            self.objects,
+            element.tag,
+            element.text,
+            element.tail,
+        )
+        element.clear()
 
     def merge_parent_namespaces(
         self, parent_ns_map: dict[str | None, str], ns_map: dict[str | None, str]
